@@ -63,6 +63,11 @@ impl<'a, T: Send> Future for SendFuture<'a, T> {
     let this = unsafe { self.as_mut().get_unchecked_mut() };
     let state_ptr = &this.state as *const AtomicU8;
 
+    // A handle that was itself closed rejects further operations (same gate as try_send).
+    if this.sender.closed.load(Ordering::Relaxed) && !this.is_registered {
+      return Poll::Ready(Err(SendError::Closed));
+    }
+
     'poll_loop: loop {
       if this.is_registered {
         let st = this.state.load(Ordering::SeqCst);
@@ -210,6 +215,19 @@ impl<'a, T: Send> Future for SendBatchFuture<'a, T> {
   fn poll(mut self: Pin<&mut Self>, cx: &mut Context<'_>) -> Poll<Self::Output> {
     let this = unsafe { self.as_mut().get_unchecked_mut() };
     let state_ptr = &this.state as *const AtomicU8;
+
+    // A handle that was itself closed rejects further operations (same gate as try_send_batch).
+    if this.sender.closed.load(Ordering::Relaxed) && !this.is_registered {
+      return Poll::Ready(Err(SendBatchError {
+        sent: this.sent,
+        unsent: this
+          .pending
+          .take()
+          .into_iter()
+          .chain(this.iter.by_ref())
+          .collect(),
+      }));
+    }
 
     'poll_loop: loop {
       if this.is_registered {
@@ -407,6 +425,11 @@ impl<'a, T: Send> Future for SendBatchMutFuture<'a, T> {
     let this = unsafe { self.as_mut().get_unchecked_mut() };
     let state_ptr = &this.state as *const AtomicU8;
 
+    // A handle that was itself closed rejects further operations (same gate as try_send_batch_mut).
+    if this.sender.closed.load(Ordering::Relaxed) && !this.is_registered {
+      return Poll::Ready(Err(SendError::Closed));
+    }
+
     'poll_loop: loop {
       if this.is_registered {
         let st = this.state.load(Ordering::SeqCst);
@@ -558,6 +581,11 @@ impl<'a, T: Send> Future for RecvBatchFuture<'a, T> {
   fn poll(mut self: Pin<&mut Self>, cx: &mut Context<'_>) -> Poll<Self::Output> {
     let this = unsafe { self.as_mut().get_unchecked_mut() };
     let state_ptr = &this.state as *const AtomicU8;
+
+    // A handle that was itself closed rejects further operations (same gate as try_recv).
+    if this.receiver.closed.load(Ordering::Relaxed) && !this.is_registered {
+      return Poll::Ready(Err(RecvError::Disconnected));
+    }
     let mut out = Vec::new();
 
     if this.is_registered {
@@ -647,6 +675,11 @@ impl<'a, T: Send> Future for RecvBatchMutFuture<'a, T> {
   fn poll(mut self: Pin<&mut Self>, cx: &mut Context<'_>) -> Poll<Self::Output> {
     let this = unsafe { self.as_mut().get_unchecked_mut() };
     let state_ptr = &this.state as *const AtomicU8;
+
+    // A handle that was itself closed rejects further operations (same gate as try_recv).
+    if this.receiver.closed.load(Ordering::Relaxed) && !this.is_registered {
+      return Poll::Ready(Err(RecvError::Disconnected));
+    }
     let max = this.max;
 
     if this.is_registered {
@@ -729,6 +762,11 @@ impl<'a, T: Send> Future for RecvFuture<'a, T> {
     // PhantomPinned makes RecvFuture !Unpin, so get_unchecked_mut is required.
     let this = unsafe { self.as_mut().get_unchecked_mut() };
     let state_ptr = &this.state as *const AtomicU8;
+
+    // A handle that was itself closed rejects further operations (same gate as try_recv).
+    if this.receiver.closed.load(Ordering::Relaxed) && !this.is_registered {
+      return Poll::Ready(Err(RecvError::Disconnected));
+    }
 
     if this.is_registered {
       let st = this.state.load(Ordering::SeqCst);
